@@ -192,6 +192,7 @@ public:
         p.set_knob("ccnta", (s64)r.below(2));
         p.set_knob("crep", (s64)r.below(2));
         p.set_knob("clob", (s64)(r.next() & 0xFFFF));
+        p.set_knob("regseed", (s64)(r.next() & 0xFFFFFFF)); // initial values of the data registers (set through the register accessor)
         int nsub = (int)r.below(4);
         for (int i = 0; i < nsub; ++i)
             p.add("sub", {(s64)r.below(7), (s64)(r.next() & 0xFFFF), (s64)(r.next() & 0xFFFF), (s64)r.below(4)});
@@ -296,9 +297,6 @@ public:
         if (variant == 0 && line < 3)
             mod3 |= (u16)(2 << line);
         bl.a.mov_imm_sttmod(op::MOD3, mod3);
-        bl.a.mov_imm(op::R0, 0x1111);
-        bl.a.mov_imm(op::A0, 0x2222);
-        bl.a.mov_imm(op::A1, 0x3333);
         int count = 0;
         for (auto& s : plan.steps) {
             if (s.op != "p")
@@ -310,6 +308,35 @@ public:
         m.end_addr = bl.a.at;
         bl.a.idle();
         b.load(bl.a.words);
+        {
+            // data registers start from arbitrary values within hardware widths: whole 40-bit accumulators (guard bits
+            // in use), factors, products, general registers, shift value
+            Rng g((u64)plan.knob("regseed", 0) * 2654435761u + 99);
+            auto& r = b.regs();
+            auto acc = [&]() -> u64 {
+                u64 v = g.next() & 0xFFFFFFFFFFull;
+                if (g.chance(1, 3))
+                    v = g.next() & 0xFFFFFFFFull;
+                if (v & 0x8000000000ull)
+                    v |= 0xFFFFFF0000000000ull;
+                return v;
+            };
+            r.a[0] = acc();
+            r.a[1] = acc();
+            r.b[0] = acc();
+            r.b[1] = acc();
+            for (auto& v : r.x)
+                v = (u16)g.next();
+            for (auto& v : r.y)
+                v = (u16)g.next();
+            for (auto& v : r.p)
+                v = (u32)g.next();
+            for (int i = 0; i < 8; ++i)
+                r.r[i] = (u16)g.next();
+            r.sv = (u16)g.next();
+            r.mixp = (u16)g.next();
+            r.repc = (u16)(g.next() & 0xFF);
+        }
         // ICU: software irq 5 routed to the chosen line
         auto& t = *b.t;
         for (u16 o = 0x206; o <= 0x20C; o += 2)
@@ -435,7 +462,7 @@ public:
                         ++expected_entries;
                         out.faults_fired["irq-inject"]++;
                         auto& r = A.b.regs();
-                        bool live = r.sp != STACK_TOP || r.lp || r.rep || r.a[0] != 0x2222;
+                        bool live = r.sp != STACK_TOP || r.lp || r.rep || r.a[1] != 0 || r.b[1] != 0;
                         if (live)
                             live_ctx = true;
                         ctxsig.add((u64)(r.sp != STACK_TOP) | (u64)(r.lp != 0) << 1 | (u64)r.rep << 2);
